@@ -68,6 +68,7 @@ package gostring
 import (
 	"fmt"
 	"go/types"
+	"strings"
 
 	"github.com/awalterschulze/goderive/derive"
 )
@@ -109,8 +110,13 @@ func (g *gen) Generate(typs []types.Type) error {
 	return g.genFunc(typs[0])
 }
 
+// TypeString returns the type as it is written inside the format string literals of the generated code:
+// a field tag brings quotes and backslashes, and possibly percent signs, into the type.
 func (g *gen) TypeString(typ types.Type) string {
-	return g.TypesMap.(bypass).TypeStringBypass(typ)
+	s := g.TypesMap.(bypass).TypeStringBypass(typ)
+	s = strings.Replace(s, "%", "%%", -1)
+	s = strings.Replace(s, `\`, `\\`, -1)
+	return strings.Replace(s, `"`, `\"`, -1)
 }
 
 type bypass interface {
